@@ -268,6 +268,26 @@ static int sparse_now(void);
 static void list_bare_query(int slot, const char *when);
 static void vector_bare_query(int slot, const char *when);
 static void map_bare_query(int slot, const char *when);
+/* One object may sit in a list twice (appended twice): it is then there twice, goes twice, and is deleted once -- by the harness,
+   when the list has let go of its last occurrence; surplus occurrences are taken out (by position) before a list is deleted. */
+static int list_holds_ptr(spif_obj_t l, spif_obj_t e, const char *when)
+{
+    spif_obj_t el[MAXLEN];
+    int n = walk(l, el, when), c = 0;
+    for (int q = 0; q < n; q++) if (el[q] == e) c++;
+    return c;
+}
+static void list_drop_surplus(spif_obj_t l, const char *when)
+{
+    spif_obj_t el[MAXLEN];
+    int n = walk(l, el, when);
+    for (int a = n - 1; a > 0; a--) {
+        int earlier = 0;
+        for (int b = 0; b < a; b++) if (el[a] && el[b] == el[a]) earlier = 1;
+        if (earlier && SPIF_LIST_REMOVE_AT(l, (spif_listidx_t)a) != el[a]) FAILM("remove_at", "%s: remove_at(%d) did not hand back the element stored there", when, a);
+    }
+}
+
 /* Which of several equal elements a remove() hands back is not said -- equal is equal.  What the list holds afterwards is:
    "the same elements in the same order" as the ideal sequence, from which the FIRST element equal to the probe has gone.  Taking
    a later one is the same thing only where everything in between is equal to it as well (then the values that remain, in order,
@@ -307,6 +327,23 @@ static void list_pass(const plan_t *p)
             spif_bool_t b = k[0] == 'a' ? SPIF_LIST_APPEND(l, e) : SPIF_LIST_PREPEND(l, e);
             if (!b) FAILM("return", "%s returned FALSE", k);
             m_ins(m, k[0] == 'a' ? m->len : 0, e->root, e->key, 0);
+        } else if (!strcmp(k, "append_again")) {
+            /* append/prepend of an object the list already holds */
+            spif_obj_t el[MAXLEN], pick = NULL;
+            long r, kk, vv;
+            int n, at;
+            spif_bool_t b;
+            if (!m->len || m->len >= MAXLEN - 60) continue;
+            n = walk(l, el, k);
+            if (n != m->len) FAILM("contents", "list holds %d elements, ideal sequence has %d", n, m->len);
+            at = (int)((unsigned long)o->a[1] % (unsigned long)n);
+            for (int q = 0; q < n && !pick; q++) pick = el[(at + q) % n];
+            if (!pick) continue;                                   /* nothing but placeholders */
+            elem_ident(pick, 0, &r, &kk, &vv, k);
+            b = o->a[2] ? SPIF_LIST_PREPEND(l, pick) : SPIF_LIST_APPEND(l, pick);
+            if (!b) FAILM("return", "%s of an object the list already holds returned FALSE", o->a[2] ? "prepend" : "append");
+            m_ins(m, o->a[2] ? 0 : m->len, r, kk, 0);
+            probe_hit("same_object_in_list_twice");
         } else if (!strcmp(k, "insert_at")) {
             vobj_t e;
             long idx = o->na > 3 && o->a[3] == 1 ? resolve_idx(o->a[2], m->len) : o->a[2], j = idx < 0 ? idx + m->len : idx;
@@ -337,7 +374,7 @@ static void list_pass(const plan_t *p)
             elem_ident(got, 0, &r, &kk, &v, k);
             if (r != m->root[j]) { int alt = -1; for (int q = 0; q < m->len; q++) if (m->root[q] == r && m->key[q] == m->key[pos]) alt = q; if (alt < 0) FAILM("remove", "remove(get(%d)) returned element #%ld, which is not an element equal to the probe", pos, r); remove_order_check(m, j, alt, k); j = alt; }
             m_del(m, j);
-            SPIF_OBJ_DEL(got);
+            if (!list_holds_ptr(l, got, k)) SPIF_OBJ_DEL(got);
             probe_hit("probe_is_own_element");
         } else if (!strcmp(k, "remove")) {
             vobj_t probe = VNEW(o->a[1]);
@@ -353,7 +390,7 @@ static void list_pass(const plan_t *p)
                 if (r != m->root[j]) { int alt = -1; for (int q = 0; q < m->len; q++) if (m->root[q] == r && m->key[q] == o->a[1]) alt = q; if (alt < 0) FAILM("remove", "remove returned element #%ld, which is not an element equal to the probe", r); remove_order_check(m, j, alt, k); j = alt; probe_hit("removed_a_later_duplicate"); }
                 if (j == m->len - 1) probe_hit("removed_last");
                 m_del(m, j);
-                SPIF_OBJ_DEL(got);
+                if (!list_holds_ptr(l, got, k)) SPIF_OBJ_DEL(got);
             }
         } else if (!strcmp(k, "remove_at")) {
             long idx = o->na > 2 && o->a[2] == 1 ? resolve_idx(o->a[1], m->len) : o->a[1], j = idx < 0 ? idx + m->len : idx;
@@ -365,7 +402,7 @@ static void list_pass(const plan_t *p)
                 if (r != m->root[j]) FAILM("remove_at", "remove_at(%ld) returned element #%ld, ideal sequence has #%ld there", idx, r, m->root[j]);
                 if (j == m->len - 1) probe_hit("removed_last");
                 m_del(m, (int)j);
-                if (got) SPIF_OBJ_DEL(got);
+                if (got && !list_holds_ptr(l, got, k)) SPIF_OBJ_DEL(got); else if (got) probe_hit("one_occurrence_of_two_removed");
             }
         } else if (!strcmp(k, "index") || !strcmp(k, "find") || !strcmp(k, "contains")) {
             vobj_t probe = VNEW(o->a[1]);
@@ -433,6 +470,7 @@ static void list_pass(const plan_t *p)
             M[d] = *m;
             probe_hit("list_dup");
         } else if (!strcmp(k, "del")) {
+            list_drop_surplus(l, k);
             SPIF_LIST_DEL(l);
             C[s] = NULL; m->len = 0;
         } else continue;
@@ -441,7 +479,7 @@ static void list_pass(const plan_t *p)
         tr_u64("alloc", sa_live_digest());
     }
     R.cur_op = NULL;
-    for (int q = 0; q < NSLOT; q++) if (C[q]) { SPIF_LIST_DEL(C[q]); C[q] = NULL; }
+    for (int q = 0; q < NSLOT; q++) if (C[q]) { list_drop_surplus(C[q], "end"); SPIF_LIST_DEL(C[q]); C[q] = NULL; }
 }
 
 /* ------------------------------------------------------------------ C04: vectors */
@@ -1034,7 +1072,7 @@ static void gen_list(plan_t *p, rng_t *r)
         long key = (long)rng_below(r, 6);
         if (!ex[s]) { plan_op(p, 0, "new", 1, (long)s); ex[s] = 1; len[s] = 0; continue; }
         if (len[s] > cap && k < 45) k = 50 + k % 20;
-        if (k < 18) { plan_op(p, 0, "append", 2, (long)s, key); len[s]++; }
+        if (k < 18) { if (len[s] && rng_chance(r, 1, 10)) plan_op(p, 0, "append_again", 3, (long)s, (long)rng_below(r, 1000), (long)rng_below(r, 2)); else plan_op(p, 0, "append", 2, (long)s, key); len[s]++; }      /* (one in ten: an object the list already holds) */
         else if (k < 28) { plan_op(p, 0, "prepend", 2, (long)s, key); len[s]++; }
         else if (k < 45) {
             if (rng_chance(r, 1, 2)) { long code = (long)rng_below(r, 16) * 100 + (long)rng_below(r, 100); plan_op(p, 0, "insert_at", 4, (long)s, key, code, 1L); len[s]++; }      /* position resolved when the op runs */
